@@ -12,7 +12,7 @@ Undecided: equality of complete outputs with extraction from the restricted docu
 import ast
 from ..core import walk_own, norm
 from ..report import Ob, Floor
-from ..rules import twin
+from ..rules import twin, plumb
 from ..abseval import Evaluator, Opaque
 from .. import exceptions
 from .c10 import selection_tables
@@ -98,6 +98,52 @@ def filter_placement(ctx, clause):
     return obs
 
 
+def filter_wrap_table(ctx, clause):
+    """Whatever the source of the graph, get_triple_yielder hands back the reader wrapped in the namespace filter when
+    namespaces_to_ignore is given, and the bare reader when it is not.  One row per source branch, by abstract evaluation
+    with the reader builders kept symbolic."""
+    from ..abseval import Evaluator, Distinct, Opaque, Raised
+    p = ctx.p
+    f = p.func("shexer.utils.factories.triple_yielders_factory:get_triple_yielder")
+    NS = Distinct("namespaces-to-ignore")
+    rows = [("url_endpoint", {"url_endpoint": Distinct("endpoint")}),
+            ("url_input", {"url_input": Distinct("url")}),
+            ("list_of_url_input", {"list_of_url_input": (Distinct("url"),)}),
+            ("rdflib_graph", {"rdflib_graph": Distinct("graph-object")}),
+            ("nt file", {"source_file": Distinct("file"), "input_format": p.const("shexer.consts", "NT")}),
+            ("tsv file", {"source_file": Distinct("file"), "input_format": p.const("shexer.consts", "TSV_SPO")}),
+            ("turtle_iter raw", {"raw_graph": Distinct("text"), "input_format": p.const("shexer.consts", "TURTLE_ITER")}),
+            ("turtle file", {"source_file": Distinct("file"), "input_format": p.const("shexer.consts", "TURTLE")}),
+            ("rdf/xml files", {"list_of_source_files": (Distinct("f1"), Distinct("f2")), "input_format": p.const("shexer.consts", "RDF_XML")})]
+    obs, n = [], 0
+    for label, kw in rows:
+        for ns in (NS, None):
+            ev = Evaluator(ctx, max_depth=6)
+            # the per-source reader builders stay symbolic; any other helper of the factory is interpreted
+            ev.symbolic = {t.name for t in p.funcs.values() if t.module is f.module and
+                           (t.name.startswith("_yielder_for") or t.name.startswith("_get_base_zip"))}
+            args = {prm: None for prm in f.bound_params if prm not in f.defaults}
+            args.update(kw)
+            args["namespaces_to_ignore"] = ns
+            outs = ev.outcomes(f, args)
+            n += 1
+
+            def wrapped(v):
+                return isinstance(v, tuple) and len(v) == 4 and v[0] == "new" and v[1] == "FilterNamespacesTriplesYielder" and \
+                    any(x is NS or (isinstance(x, tuple) and NS in x) for x in list(v[2]) + [b for _, b in v[3]])
+            if ns is None:
+                ok = len(outs) == 1 and outs[0][0] == "return" and not wrapped(outs[0][1]) and outs[0][1] is not None
+                want = "the bare reader"
+            else:
+                ok = len(outs) == 1 and outs[0][0] == "return" and wrapped(outs[0][1])
+                want = "the reader wrapped in FilterNamespacesTriplesYielder(namespaces_to_ignore)"
+            obs.append(Ob(clause, "R-TABLE", "R-TABLE|filter-wrap|%s|%s" % (label, "ignore" if ns is not None else "none"), f.loc(), ok,
+                          "%s, namespaces_to_ignore %s -> %s" % (label, "given" if ns is not None else "absent", want) if ok else
+                          "%s with namespaces_to_ignore %s: expected %s, code gives %s" % (
+                              label, "given" if ns is not None else "absent", want, [(o[0], str(o[1])[:90]) for o in outs])))
+    return obs, n
+
+
 def direct_child_table(ctx, clause):
     f = ctx.p.func("shexer.utils.triple_yielders:check_if_property_belongs_to_namespace_list")
     ev = Evaluator(ctx)
@@ -130,8 +176,11 @@ def check(ctx, tier):
                   "the early-stop variant is bound iff the number of target classes is known (> 0)" if ok else
                   "slot binding changed: %s" % (norm(bind[0].value) if bind else "no binding")))
     obs += ctx.attempt(filter_placement, ctx, "D-b", default=[])
+    o_fw, r3 = ctx.attempt(filter_wrap_table, ctx, "D-b", default=([], 0))
+    obs += o_fw
     o_dc, r2 = ctx.attempt(direct_child_table, ctx, "D-c", default=([], 0))
     obs += o_dc
+    obs += ctx.attempt(lambda c, cl: plumb.no_cross_option_flow(c, cl)[0], ctx, "D-e", default=[])
     exceptions.apply(obs)
     return {"obs": obs, "floors": [Floor("cap table rows", r1, 12), Floor("direct-child table rows", r2, 8)],
             "explanation": "Decision tables of the cap acceptance test (count < cap), of both counting variants (one increment and one "
